@@ -27,7 +27,6 @@ package terminal
 //@ specmethod (i *IntegerNode) NodeOK() (x bool) = i != nil
 //@ specmethod (i *IntegerNode) ListSpare() (x int) = 0
 //@ specmethod (i *IntegerNode) ListArr() (x int) = 0
-//@ specmethod (i *IntegerNode) EndsWithin(lo parsley.Pos, hi parsley.Pos) (x bool) = lo <= i.readerPos && i.readerPos <= hi
 //@ func NewIntegerNode(schema interface{}, value int64, pos parsley.Pos, readerPos parsley.Pos) (n *IntegerNode)
 //@   ensures fresh(n) && n.schema == schema && n.value == value && n.pos == pos && n.readerPos == readerPos
 //@   assigns nothing
@@ -40,7 +39,6 @@ package terminal
 //@ specmethod (f *FloatNode) NodeOK() (x bool) = f != nil
 //@ specmethod (f *FloatNode) ListSpare() (x int) = 0
 //@ specmethod (f *FloatNode) ListArr() (x int) = 0
-//@ specmethod (f *FloatNode) EndsWithin(lo parsley.Pos, hi parsley.Pos) (x bool) = lo <= f.readerPos && f.readerPos <= hi
 //@ func NewFloatNode(schema interface{}, value float64, pos parsley.Pos, readerPos parsley.Pos) (n *FloatNode)
 //@   ensures fresh(n) && n.schema == schema && n.value == value && n.pos == pos && n.readerPos == readerPos
 //@   assigns nothing
@@ -53,7 +51,6 @@ package terminal
 //@ specmethod (s *StringNode) NodeOK() (x bool) = s != nil
 //@ specmethod (s *StringNode) ListSpare() (x int) = 0
 //@ specmethod (s *StringNode) ListArr() (x int) = 0
-//@ specmethod (s *StringNode) EndsWithin(lo parsley.Pos, hi parsley.Pos) (x bool) = lo <= s.readerPos && s.readerPos <= hi
 //@ func NewStringNode(schema interface{}, value string, pos parsley.Pos, readerPos parsley.Pos) (n *StringNode)
 //@   ensures fresh(n) && n.schema == schema && n.value == value && n.pos == pos && n.readerPos == readerPos
 //@   assigns nothing
@@ -66,7 +63,6 @@ package terminal
 //@ specmethod (c *CharNode) NodeOK() (x bool) = c != nil
 //@ specmethod (c *CharNode) ListSpare() (x int) = 0
 //@ specmethod (c *CharNode) ListArr() (x int) = 0
-//@ specmethod (c *CharNode) EndsWithin(lo parsley.Pos, hi parsley.Pos) (x bool) = lo <= c.readerPos && c.readerPos <= hi
 //@ func NewCharNode(schema interface{}, value rune, pos parsley.Pos, readerPos parsley.Pos) (n *CharNode)
 //@   ensures fresh(n) && n.schema == schema && n.value == value && n.pos == pos && n.readerPos == readerPos
 //@   assigns nothing
@@ -79,7 +75,6 @@ package terminal
 //@ specmethod (b *BoolNode) NodeOK() (x bool) = b != nil
 //@ specmethod (b *BoolNode) ListSpare() (x int) = 0
 //@ specmethod (b *BoolNode) ListArr() (x int) = 0
-//@ specmethod (b *BoolNode) EndsWithin(lo parsley.Pos, hi parsley.Pos) (x bool) = lo <= b.readerPos && b.readerPos <= hi
 //@ func NewBoolNode(schema interface{}, value bool, pos parsley.Pos, readerPos parsley.Pos) (n *BoolNode)
 //@   ensures fresh(n) && n.schema == schema && n.value == value && n.pos == pos && n.readerPos == readerPos
 //@   assigns nothing
@@ -92,7 +87,6 @@ package terminal
 //@ specmethod (n *NilNode) NodeOK() (x bool) = n != nil
 //@ specmethod (n *NilNode) ListSpare() (x int) = 0
 //@ specmethod (n *NilNode) ListArr() (x int) = 0
-//@ specmethod (n *NilNode) EndsWithin(lo parsley.Pos, hi parsley.Pos) (x bool) = lo <= n.readerPos && n.readerPos <= hi
 //@ func NewNilNode(schema interface{}, pos parsley.Pos, readerPos parsley.Pos) (n *NilNode)
 //@   ensures fresh(n) && n.schema == schema && n.pos == pos && n.readerPos == readerPos
 //@   assigns nothing
@@ -105,7 +99,6 @@ package terminal
 //@ specmethod (o *OpNode) NodeOK() (x bool) = o != nil
 //@ specmethod (o *OpNode) ListSpare() (x int) = 0
 //@ specmethod (o *OpNode) ListArr() (x int) = 0
-//@ specmethod (o *OpNode) EndsWithin(lo parsley.Pos, hi parsley.Pos) (x bool) = lo <= o.readerPos && o.readerPos <= hi
 //@ func NewOpNode(value string, pos parsley.Pos, readerPos parsley.Pos) (n *OpNode)
 //@   ensures fresh(n) && n.value == value && n.pos == pos && n.readerPos == readerPos
 //@   assigns nothing
@@ -118,7 +111,6 @@ package terminal
 //@ specmethod (t *TimeDurationNode) NodeOK() (x bool) = t != nil
 //@ specmethod (t *TimeDurationNode) ListSpare() (x int) = 0
 //@ specmethod (t *TimeDurationNode) ListArr() (x int) = 0
-//@ specmethod (t *TimeDurationNode) EndsWithin(lo parsley.Pos, hi parsley.Pos) (x bool) = lo <= t.readerPos && t.readerPos <= hi
 //@ func NewTimeDurationNode(schema interface{}, value time.Duration, pos parsley.Pos, readerPos parsley.Pos) (n *TimeDurationNode)
 //@   ensures fresh(n) && n.schema == schema && n.value == value && n.pos == pos && n.readerPos == readerPos
 //@   assigns nothing
